@@ -396,6 +396,22 @@ def batches(rng, tier):
     # 3b. the static interface of every constructed object
     yield Batch("info", [f"info {s['id']}" for s in SHAPES if s["kind"] != "hang"], exhaustive=True,
                 note="flag_names() / option_names() of every parser object of every shape in construction order, names of the sub_commands")
+    # 3b'. the comparison operators of option_name on all ordered pairs; the public is_option
+    names = ["--a", "-a", "--b", "-b", "--ab", "-ab", "--", "-", "--A", "-aa"]
+    yield Batch("option-name-order", ["oncmp " + " ".join(names), "oncmp", "oncmp --x", "oncmp -x --x -x"], exhaustive=True,
+                note="operator== and operator< of option_name on all ordered pairs of 10 names (same text short/long, prefixes, empty name, case)")
+    yield Batch("is-option", ["isopt a -a --a - -- ~ 5 -5 +5 a-b -~ =-"], exhaustive=True, note="fcppt::options::is_option")
+    # 3b''. numeric conversion at the limits of the value types
+    nums = ["0", "-0", "+0", "-1", "2147483647", "2147483648", "-2147483648", "-2147483649", "4294967295", "4294967296",
+            "-4294967295", "-4294967296", "00000000005", "1e3", "0x10", "5.", "+", "+-5", "18446744073709551616"]
+    for n in (1, 2, 3):
+        ops = []
+        for s in SHAPES:
+            if s["kind"] != "ok" or not (set(G.value_types(s)) & {"int", "uns"}):
+                continue
+            al = option_names(s)[:3] + (nums if n < 3 else nums[:8])
+            ops += ex_ops(s["id"], n, al)
+        yield Batch(f"exhaustive-numeric-len{n}", ops, exhaustive=True, note=f"all vectors of length {n} over the option names and numbers at and beyond the limits of int / unsigned, signs, leading zeros, non-decimal spellings")
     # 3c. near misses of every name
     for n in range(1, (4 if thorough else 3) + 1):
         ops = []
